@@ -45,14 +45,34 @@ def local_case(ch, r):
         kw = {k: v for k, v in (('priority_weight', w), ('priority_depends_on', d), ('priority_exclusive', e))
               if v is not None}
         hdrs = list(REQ if client else RESP)
-        if ch.chance(80):
+        later = ch.chance(64)
+        extra = {}
+        if later and client:
+            # the priority arguments come with the trailers of a request that was opened without any: a HEADERS
+            # frame may carry them wherever it stands in the message
+            o0 = s.call('send_headers', sid, list(REQ))
+            if not o0.ok:
+                r.violate('C23:harness:open-refused', o0.brief())
+                return
+            hdrs, extra = [(b'x-trailer', b'v')], {'end_stream': True}
+            r.labels.add('priority-on-trailers')
+        elif later:
+            # a server's response on a stream it promised itself: still a server
+            o0 = s.call('push_stream', 1, 2, list(REQ))
+            if not o0.ok:
+                r.violate('C23:harness:push-refused', o0.brief())
+                return
+            sid = 2
+            r.labels.add('priority-on-pushed-response')
+        if ch.chance(80) and not later:
             # a header block at the frame-size limit: the five priority bytes share the first frame with it
             from hpack import Encoder
             from .C02 import sized_headers
             hdrs = sized_headers(ch, Encoder(), hdrs, ch.pick([1, 1, 2]) * 16384 + ch.int(-8, 8))
             r.labels.add('priority-on-frame-filling-block')
-        o = s.call('send_headers', sid, hdrs, **kw)
+        o = s.call('send_headers', sid, hdrs, **dict(kw, **extra))
     else:
+        later = False
         kw = {k: v for k, v in (('weight', w), ('depends_on', d), ('exclusive', e)) if v is not None}
         o = s.call('prioritize', sid, **kw)
     r.step('local', 'client' if client else 'server', 'send_headers' if via_headers else 'prioritize', sid, kw,
@@ -83,7 +103,7 @@ def local_case(ch, r):
             r.violate('C23:invalid-priority-wrong-exception:%s' % o.exc_name, repr(kw))
         if o.out:
             r.violate('C23:refused-priority-call-emitted', o.out.hex()[:40])
-        if via_headers and client:
+        if via_headers and client and not later:
             # the refused call must not have opened the stream
             q = s.call('get_next_available_stream_id')
             if q.ok and q.value != 1:
